@@ -34,7 +34,7 @@ func (r Report) isEqual(nr Report) bool {
 	if r.Problem.Lines.First != nr.Problem.Lines.First {
 		return false
 	}
-	if r.Problem.Lines.Last != nr.Rule.Lines.Last {
+	if r.Problem.Lines.Last != nr.Problem.Lines.Last {
 		return false
 	}
 	if !nr.Rule.IsSame(r.Rule) {
